@@ -93,6 +93,7 @@ Print Assumptions C28_commit_files.
 Theorem C28_rm_file_eq : forall s p,
   is_some (find_i (st_index s) p) = true ->
   is_dir_wt s p && negb (has_file s p) = false ->
+  existsb (fun f => under (wf_path f) p) (st_wt s) = false ->
   g_rm s p = s_rm s p.
 Proof. exact rm_file_eq. Qed.
 Print Assumptions C28_rm_file_eq.
@@ -107,6 +108,21 @@ Proof.
   split; eexists; split; reflexivity.
 Qed.
 Print Assumptions C28_rm_dir_missing_refuted.
+
+(* rm of an entry whose parent directory has been replaced by a file: go-git fails and keeps it *)
+Theorem C28_rm_below_file_refuted : exists s s', g_rm s [97; 47; 98] = RErr s /\ s_rm s [97; 47; 98] = ROk s' /\ st_index s' = [].
+Proof.
+  eexists (st0 true [] [mkI [97; 47; 98] MReg (mkHash 0 1) 2 5 false] [mkW pa MReg 2 2 9 false false]), _.
+  repeat split; reflexivity.
+Qed.
+Print Assumptions C28_rm_below_file_refuted.
+
+(* rm of a tracked directory that is already gone from the worktree: go-git fails, git unstages its entries *)
+Theorem C28_rm_deleted_dir_refuted : exists s s', g_rm s pd = RErr s /\ s_rm s pd = ROk s' /\ st_index s' = [].
+Proof.
+  eexists (st0 true [] [mkI pdx MReg (mkHash 0 1) 2 5 false] []), _. repeat split; reflexivity.
+Qed.
+Print Assumptions C28_rm_deleted_dir_refuted.
 
 (* rm of a directory without tracked files: go-git succeeds, git fails *)
 Theorem C28_rm_untracked_dir_refuted : exists s s', g_rm s pd = ROk s' /\ s_rm s pd = RErr s.
